@@ -48,6 +48,9 @@ pub enum Scenario {
     /// as a `#![no_std]` or ordinary crate, with or without cfg(feature = "alloc"/"std") set for it; it must compile whenever
     /// its control twin (same crate without the to_dyn! calls) does
     CallerCompiles { no_std: bool, features: bool },
+    /// the interpreter crate, which expands to_dyn! for every variant of the build, compiles against rrtk built with
+    /// `alloc` only (1) / without any feature (2) whenever its twin without the to_dyn! expansions does
+    RrtkBuildCompiles { rrtk_build: u8 },
 }
 
 fn variant(i: u8) -> Variant {
@@ -67,12 +70,63 @@ fn hops(ops: &[SOp]) -> Vec<HOp> {
 fn seq_key(s: &Seq) -> u64 {
     hash_of(&(s.variant % 6, s.ops.iter().map(|o| match o { SOp::Clone(k) => (0u8, *k, 0i64), SOp::ToDyn(k) => (1, *k, 0), SOp::Read(k) => (2, *k, 0), SOp::Write(k, v) => (3, *k, *v), SOp::Drop(k) => (4, *k, 0) }).collect::<Vec<_>>()))
 }
-fn ds_binary(with_features: bool, rrtk_build: u8) -> String {
+fn ds_binary(with_features: bool, rrtk_build: u8) -> Option<String> {
     match rrtk_build % 3 {
-        0 => format!("{}/work/target-ds-{}/release/downstream", verif_root().display(), if with_features { "feat" } else { "nofeat" }),
-        1 => format!("{}/work/target-ds-alloc/release/ds_variant", verif_root().display()),
-        _ => format!("{}/work/target-ds-bare/release/ds_variant", verif_root().display()),
+        0 => Some(format!("{}/work/target-ds-{}/release/downstream", verif_root().display(), if with_features { "feat" } else { "nofeat" })),
+        b => match variant_build(b) {
+            VariantBuild::Built(path) => Some(path),
+            _ => None,
+        },
     }
+}
+#[derive(Clone, Debug)]
+enum VariantBuild {
+    Built(String),
+    /// the crate compiles without its to_dyn! expansions but not with them: (diagnostics)
+    ToDynDoesNotCompile(String),
+    /// neither build works: nothing can be said (diagnostics)
+    Unavailable(String),
+}
+/// builds `ds_variants` against rrtk with `alloc` only (1) or without features (2), once per process
+fn variant_build(build: u8) -> VariantBuild {
+    static CACHE: [std::sync::OnceLock<VariantBuild>; 2] = [std::sync::OnceLock::new(), std::sync::OnceLock::new()];
+    let idx = if build % 3 == 1 { 0 } else { 1 };
+    CACHE[idx]
+        .get_or_init(|| {
+            let name = if idx == 0 { "alloc" } else { "bare" };
+            let dir = verif_root().join("ds_variants");
+            if !dir.join("Cargo.lock").exists() {
+                let _ = std::fs::copy(verif_root().join("cfgrun").join("Cargo.lock"), dir.join("Cargo.lock"));
+            }
+            let cargo = |control: bool| -> Result<(), String> {
+                let mut feats: Vec<&str> = Vec::new();
+                if idx == 0 {
+                    feats.push("interp_alloc");
+                }
+                if control {
+                    feats.push("interp_no_to_dyn");
+                }
+                let target = verif_root().join("work").join(format!("target-ds-{}{}", name, if control { "-control" } else { "" }));
+                let mut cmd = Proc::new("cargo");
+                cmd.current_dir(&dir).args(["build", "--offline", "--release", "--target-dir"]).arg(&target);
+                if !feats.is_empty() {
+                    cmd.arg("--features").arg(feats.join(","));
+                }
+                match cmd.env_remove("RUSTFLAGS").env("CARGO_NET_OFFLINE", "true").output() {
+                    Ok(o) if o.status.success() => Ok(()),
+                    Ok(o) => Err(String::from_utf8_lossy(&o.stderr).lines().filter(|l| l.starts_with("error")).take(6).collect::<Vec<_>>().join(" | ")),
+                    Err(e) => Err(format!("cannot run cargo: {}", e)),
+                }
+            };
+            match cargo(false) {
+                Ok(()) => VariantBuild::Built(format!("{}/work/target-ds-{}/release/ds_variant", verif_root().display(), name)),
+                Err(diag) => match cargo(true) {
+                    Ok(()) => VariantBuild::ToDynDoesNotCompile(diag),
+                    Err(d2) => VariantBuild::Unavailable(format!("{} / control: {}", diag, d2)),
+                },
+            }
+        })
+        .clone()
 }
 /// the variant a sequence runs on in a given build of rrtk (std: all six; alloc: Ptr, RcRefCell; none: Ptr)
 fn variant_in(build: u8, i: u8) -> Variant {
@@ -192,7 +246,10 @@ pub fn check(s: &Scenario) -> CheckResult {
         Scenario::Downstream { with_features, seqs, rrtk_build } => {
             let build = *rrtk_build % 3;
             let build_name = ["rrtk built with std", "rrtk built with alloc only", "rrtk built without features"][build as usize];
-            let bin = ds_binary(*with_features, build);
+            let Some(bin) = ds_binary(*with_features, build) else {
+                // reported (or skipped) by the RrtkBuildCompiles scenario
+                return Ok(CaseInfo::new(false, 0).class("non-std rrtk build unavailable (skipped)"));
+            };
             let mut child = Proc::new(&bin).stdin(Stdio::piped()).stdout(Stdio::piped()).stderr(Stdio::null()).spawn().map_err(|e| Violation::new("C17/infrastructure", format!("cannot start {}: {}", bin, e)))?;
             {
                 let mut stdin = child.stdin.take().unwrap();
@@ -245,6 +302,15 @@ pub fn check(s: &Scenario) -> CheckResult {
             Ok(CaseInfo::new(true, 17).class("static_* macros"))
         }
         Scenario::CallerCompiles { no_std, features } => caller_compiles(*no_std, *features),
+        Scenario::RrtkBuildCompiles { rrtk_build } => {
+            let b = if *rrtk_build % 3 == 1 { 1 } else { 2 };
+            let name = if b == 1 { "alloc-only" } else { "featureless" };
+            match variant_build(b) {
+                VariantBuild::Built(_) => Ok(CaseInfo::new(true, hash_of(&("rrtk-build", b))).class("to_dyn! compiles against a non-std rrtk")),
+                VariantBuild::ToDynDoesNotCompile(diag) => Err(Violation::new(format!("C17/to_dyn/does-not-compile/{}-rrtk", name), format!("against rrtk built {} a crate that uses to_dyn! does not compile, while the same crate without the to_dyn! expansions does: {}", if b == 1 { "with `alloc` only" } else { "without any feature" }, diag))),
+                VariantBuild::Unavailable(_) => Ok(CaseInfo::new(false, 0).class("non-std rrtk build unavailable (skipped)")),
+            }
+        }
     }
 }
 
@@ -348,6 +414,9 @@ impl Property for C17 {
             for features in [false, true] {
                 sink(Scenario::CallerCompiles { no_std, features });
             }
+        }
+        for rrtk_build in [1u8, 2] {
+            sink(Scenario::RrtkBuildCompiles { rrtk_build });
         }
         // every variant x every pair of ops (length-2 prefixes) followed by a fixed tail, in all three crates
         let alphabet = [SOp::Clone(0), SOp::ToDyn(0), SOp::Read(1), SOp::Write(1, 5), SOp::Drop(0), SOp::ToDyn(1)];
